@@ -8,7 +8,7 @@ EXPLANATION = ("Mapping tables From<quinn::WriteError>, From<quinn::ReadError>, 
                "read_exact extracted from MIR on every path and compared with the reference rows (code payload passes through varint_q2w); "
                "varint_q2w / varint_w2q / streamid_q2w pass `into_inner()` unchanged into the other crate's from_u64_unchecked and both "
                "VarInt::MAX constants are 2^62-1; reset/stop of SendStream, RecvStream and their Quic* inner types delegate with w2q(code)."
-               " C06-R7 (all written bytes, then end-of-stream): the write/read wrappers pass buffers and counts unchanged, write_all is quinn's write_all, and every tokio AsyncWrite/AsyncRead method forwards to the same method of the wrapped stream (AsyncWriteExt::shutdown -> poll_shutdown is what sends the FIN).")
+               " C06-R7 (all written bytes, then end-of-stream): the write/read wrappers pass buffers and counts unchanged, write_all is quinn's write_all, and every tokio AsyncWrite/AsyncRead method forwards to the same method of the wrapped stream (AsyncWriteExt::shutdown -> poll_shutdown is what sends the FIN). C06-R8: the worker's acceptor branches reserve their queue slots before pulling and own no pulled stream across a later await, so no stream is dropped (= finished and stopped with code 0 by quinn) by a cancelled select branch.")
 NOT_DECIDED = ["quinn's delivery of RESET_STREAM / STOP_SENDING and the acknowledgement semantics of finish()"]
 TRUSTED = ["rustc MIR (resolved callees)", "quinn::VarInt invariant < 2^62", "quinn stream API semantics"]
 
@@ -151,3 +151,6 @@ def run(ctx):
         ctx.check("C06-R3", "RecvStream::%s" % nm, sg == ["return await(%s)" % inner], "RecvStream::%s does not delegate unchanged: %s" % (nm, sg), where(f))
     ctx.rule("C06-R7", "a finished stream yields all written bytes and then end-of-stream: write_all is quinn's write_all, every tokio poll_* (poll_shutdown = FIN) forwards to the same method")
     shared.stream_io_delegation(ctx, "C06-R7")
+
+    ctx.rule("C06-R8", "no signal the application did not raise: an accepted stream is never dropped with a cancelled branch of the worker loop (dropping it finishes / stops it with code 0)")
+    shared.acceptor_branches(ctx, "C06-R8")
